@@ -46,16 +46,16 @@ type ParamDecl struct {
 }
 
 type SpecFunc struct {
-	Name   string
-	Params []ParamDecl
-	Ret    string
-	Body   *Spec
-	Text   string
-	Rec    bool
+	Name     string
+	Params   []ParamDecl
+	Ret      string
+	Body     *Spec
+	Text     string
+	Rec      bool
 	Uninterp bool
-	Pkg    string
-	File   string
-	Line   int
+	Pkg      string
+	File     string
+	Line     int
 }
 
 type Axiom struct {
